@@ -1,6 +1,6 @@
 (* Corr/C01.v — what the correspondence for C01 compares *)
 From Coq Require Import String ZArith Bool List.
-From Glom Require Import Base.PyVal Model.TEval Model.Exc.
+From Glom Require Import Base.PyVal Model.TEval Model.Exc Spec.PathSpec.
 Import ListNotations.
 Local Open Scope string_scope.
 
@@ -15,8 +15,17 @@ Definition c01_model (c : c01_case) : res val :=
   | SText st t => t_eval default_fuel (c_target c) (from_text st t)
   | SParts ps => glom_path_parts (c_target c) ps end.
 
+(* the Spec-layer reference, where it applies (plain segments only) *)
+Definition c01_spec_outcome (c : c01_case) : option (res val) :=
+  match c_spec c with
+  | SText st t => option_map (fun segs => access segs 0 (c_target c)) (text_segments st t)
+  | SParts ps => option_map (fun segs => access segs 0 (c_target c)) (plain_segments ps) end.
+
 Definition c01_check (c : c01_case) : bool :=
   let m := c01_model c in
+  match c01_spec_outcome c with
+  | Some (Unmodelled _) | None => true
+  | Some s => res_eqb val_eqb s (c_impl c) end &&
   match m with
   | Unmodelled _ => true          (* outside the modelled domain: not counted, reported by c01_unmodelled *)
   | _ =>
